@@ -24,7 +24,8 @@ class TargetImpl:
         self.prog = prog
         self.path = path
         self.has_depth = has_depth
-        self.bodies = prog.family(path)
+        # private helpers of the same file (a span-clamping helper, a per-fragment function) are seen through
+        self.bodies = [prog.inlined(b, depth=2, pred=lambda cb, f=prog.body(path).file: (not cb.is_pub) and cb.file == f) for b in prog.family(path)]
         self.root = self.bodies[0]
         self.sl = {b.path: T.Slicer(b) for b in self.bodies}
         self.stores = []      # dicts: body, bb, idx, kind(colour/depth), how(assign/escape), value term, lhs term
